@@ -38,6 +38,11 @@ func main() {
 			}
 		}
 	}
+	generate(f)
+}
+
+// generate: the whole generated run for f.Seed / f.Tier
+func generate(f gen.Flags) {
 	digest = nil // the corpus is not part of the cross-process comparison
 	r := gen.NewRand(f.Seed)
 	unitCases(r.Fork(), f.N(12, 120), f.N(6, 8))
@@ -71,6 +76,9 @@ func crossProcess(f gen.Flags) {
 		return
 	}
 	theirs := strings.Split(strings.TrimSpace(string(out)), "\n")
+	// files with equal scores may come in either order ("up to ties"): compare as sets of (search, file, score)
+	sort.Strings(mine)
+	sort.Strings(theirs)
 	cs := gen.Case{Class: "cross-process", Nontrivial: len(mine) > 0, Detail: gen.Detail(map[string]int{"scores_compared": len(mine)})}
 	if len(mine) != len(theirs) {
 		cs.Go, cs.Key = fmt.Sprintf("two processes returned %d vs %d file scores for the same searches", len(mine), len(theirs)), "cross-process/count-differs"
@@ -97,6 +105,8 @@ func replay(path string) error {
 			Detail *e2eDetail `json:"detail"`
 		} `json:"case"`
 		Detail *e2eDetail `json:"detail"`
+		Seed   uint64     `json:"seed"`
+		Tier   string     `json:"tier"`
 	}
 	if err := json.Unmarshal(b, &outer); err != nil {
 		return err
@@ -106,7 +116,13 @@ func replay(path string) error {
 		d = outer.Case.Detail
 	}
 	if d == nil || len(d.Repos) == 0 {
-		return fmt.Errorf("%s: not an end-to-end case (unit cases are self-contained in their `in` line)", path)
+		// a unit-level case (or a broken obligation): every case is a deterministic function of the seed, so the
+		// run of that seed is repeated on the current tree
+		if outer.Seed == 0 {
+			return fmt.Errorf("%s: neither an end-to-end case nor a seed", path)
+		}
+		generate(gen.Flags{Seed: outer.Seed, Tier: outer.Tier})
+		return nil
 	}
 	q := parseQ(d.Query)
 	rep := d.Repeats
